@@ -954,7 +954,7 @@ func TestCheck(t *testing.T) {
 		Real: []string{"Worktree.Commit/Add/Checkout/Reset", "Repository.RepackObjects/Prune/SetConfig/CreateTag/DeleteTag", "Storage.PackRefs/RemoveReference/SetReference/CheckAndSetReference/SetShallow/SetIndex/PackfileWriter/DeleteLooseObject/DeleteOldObjectPackAndIndex/AddAlternate/AppendReflog",
 			"x/plumbing/worktree Add/Remove", "Remote.Fetch / git.Clone / Remote.Push with negotiation, pack encode and ingestion", "transport.UploadPack (v0/v1/v2) and transport.ReceivePack on the peer", "dotgit writers"},
 		Stub:    []string{"disk (simfs) with CrashAt/torn writes, one per peer", "network (simnet streams)", "clock (synctest bubble) for the network kinds"},
-		Runs:    map[string]int{"quick": 280, "thorough": 2400},
+		Runs:    map[string]int{"quick": 280, "thorough": 800},
 		NewPlan: func() any { return &Plan{} },
 		Gen:     genPlan,
 		Expand:  expand,
